@@ -26,7 +26,9 @@ from . import coqrun
 
 ROOT = os.path.normpath(os.path.join(os.path.dirname(os.path.abspath(__file__)), "..", ".."))
 IMPLDIR = os.path.join(ROOT, "harness", "impl")
-EVID = os.path.join(ROOT, "evidence")
+# evidence/ describes runs against /repo itself; a run pointed at another tree (VERIF_REPO: seeded-change tests) must not
+# overwrite it
+EVID = os.path.join(ROOT, "evidence") if not os.environ.get("VERIF_REPO") else os.path.join(ROOT, "work", "scratch", "evidence")
 REPLAYS = os.path.join(ROOT, "replays")
 KNOWN = os.path.join(ROOT, "known_findings.json")
 
